@@ -40,7 +40,9 @@ func (C16) Assumptions() []string {
 func (C16) RealComponents() []string {
 	return []string{"cmd/calc main (subprocess: file mode, REPL via readline non-tty path, -eval)", "node.Loop + FReader + processInput (in process, real file)", "parser, STRewrite, bytecoder, vm, memory, builtin"}
 }
-func (C16) StubComponents() []string { return []string{"none: the oracle is a twin session of the same real code fed statement by statement"} }
+func (C16) StubComponents() []string {
+	return []string{"none: the oracle is a twin session of the same real code fed statement by statement"}
+}
 
 // a statement as a list of lines; ctx[i] describes where the end of line i is:
 // 'b' inside a block between statements, 'a' inside an array literal after [ or ,,
